@@ -255,12 +255,14 @@ class ElementList(MutableSequence):
         :type child: :class:`Element <hl7apy.core.Element>`
         :param child: an instance of an :class:`Element <hl7apy.core.Element>` subclass
         """
+        if by_name_index == -1:
+            # the position among the children of the same name that goes with the list position, so that
+            # the list and the by-name index keep the same order
+            pos = index if index >= 0 else max(0, len(self.list) + index)
+            by_name_index = len([c for c in self.list[:pos] if c.name == child.name and c is not child])
         if self._can_add_child(child):
             try:
-                if by_name_index == -1:
-                    self.indexes[child.name].append(child)
-                else:
-                    self.indexes[child.name].insert(by_name_index, child)
+                self.indexes[child.name].insert(by_name_index, child)
             except KeyError:
                 self.indexes[child.name] = [child]
             self.list.insert(index, child)
@@ -269,10 +271,9 @@ class ElementList(MutableSequence):
             # it at the end of both the list and the by-name index. Move it to the requested position
             self.list.remove(child)
             self.list.insert(index, child)
-            if by_name_index != -1:
-                by_name = self.indexes[child.name]
-                by_name.remove(child)
-                by_name.insert(by_name_index, child)
+            by_name = self.indexes[child.name]
+            by_name.remove(child)
+            by_name.insert(by_name_index, child)
 
     def append(self, child):
         """
